@@ -167,6 +167,8 @@ def pmap(ctx, work, nchunks, timeout=3600, nproc=None):
     the worker count."""
     global _WORK
     nproc = nproc or NPROC
+    if timeout == 3600 and ctx.thorough:
+        timeout = 4 * 3600          # the deep tier may share the machine with other runs
     if nproc <= 1 or nchunks <= 1 or os.environ.get("VERIF_SERIAL"):
         for i in range(nchunks):
             c = Collector()
